@@ -133,3 +133,33 @@ def simple_replay(adapters_by_name, payload):
                                  [(ad.model(payload["case"]), ad.expected(canon) or "(Raises OtherError)")])
     return {"impl": canon, "model": ad.printed_to_canon(mism[0]) if 0 in mism else "== impl", "mutated": mutated,
             "errors": errs}
+
+
+class SpecOf(Adapter):
+    """implementation vs the SPECIFICATION side of another adapter (composition: no recursion between
+    model() and spec())"""
+
+    def __init__(self, inner, name=None):
+        self.inner = inner
+        self.name = name or (inner.name + "_spec")
+        self.imports = inner.imports
+        self.rtype = inner.rtype
+        self.eqb = inner.eqb
+
+    def impl(self, case):
+        return self.inner.impl(case)
+
+    def model(self, case):
+        return self.inner.spec(case)
+
+    def expected(self, canon):
+        return self.inner.expected(canon)
+
+    def printed_to_canon(self, printed):
+        return self.inner.printed_to_canon(printed)
+
+    def in_domain(self, case):
+        return self.inner.in_domain(case)
+
+    def nontrivial(self, case, canon):
+        return self.inner.nontrivial(case, canon)
